@@ -41,6 +41,7 @@ type replayOutcome struct {
 	Msg    string
 	Obs    []string
 	Covers string
+	Known  []string // labels of known-finding assertions that failed natively
 }
 
 func inputsOf(vars []varRec, m Model) []replayInput {
@@ -196,8 +197,20 @@ func (p *Program) runNativeOnce(rel string, cases []replayCase, scratch string, 
 		outs[i].Result = "error"
 	}
 	obs := map[int][]string{}
+	known := map[int][]string{}
 	for _, line := range strings.Split(string(out), "\n") {
 		line = strings.TrimSpace(line)
+		if strings.HasPrefix(line, "VP-KNOWN ") {
+			parts := strings.SplitN(strings.TrimPrefix(line, "VP-KNOWN "), " ", 2)
+			var idx int
+			fmt.Sscanf(parts[0], "%d", &idx)
+			var l []string
+			if len(parts) > 1 {
+				json.Unmarshal([]byte(parts[1]), &l)
+			}
+			known[idx] = l
+			continue
+		}
 		if strings.HasPrefix(line, "VP-OBS ") {
 			parts := strings.SplitN(strings.TrimPrefix(line, "VP-OBS "), " ", 2)
 			var idx int
@@ -218,7 +231,7 @@ func (p *Program) runNativeOnce(rel string, cases []replayCase, scratch string, 
 		if idx < 0 || idx >= len(outs) || len(parts) < 2 {
 			continue
 		}
-		o := replayOutcome{Result: strings.TrimPrefix(parts[1], "result="), Obs: obs[idx]}
+		o := replayOutcome{Result: strings.TrimPrefix(parts[1], "result="), Obs: obs[idx], Known: known[idx]}
 		if len(parts) > 2 {
 			switch {
 			case strings.HasPrefix(parts[2], "label="):
